@@ -217,6 +217,7 @@ def main():
     driver = os.path.join(LEAN, ".lake", "build", "bin", "driver")
     kf = known_findings(pid)
     extra = None
+    outs_by_config = {}
     for feat, drv_arg in configs:
         hbin = build_harness(feat, log)
         cname = feat or "default"
@@ -235,6 +236,7 @@ def main():
                                "impl_lines": len(impl), "model_lines": len(model), "n": len(lines),
                                "stderr": (err1 + err2)[-800:]})
             continue
+        outs_by_config[cname] = impl
         seen = set()
         hist = corr["histogram"]
         for k, (c, a, b) in enumerate(zip(lines, impl, model)):
@@ -251,7 +253,8 @@ def main():
             if b in ("NOIMPL", "BADLINE") and a == b:
                 hist["skipped:" + b] = hist.get("skipped:" + b, 0) + 1
                 continue
-            v, detail = wire.compare_lines(a, b, P["mask"], P.get("tol"))
+            lm = P["line_mask"](c) if "line_mask" in P else P["mask"]
+            v, detail = wire.compare_lines(a, b, lm, P.get("tol"), P.get("float_value_eq", False))
             if v == "same":
                 if len(corr["samples"]) < 6 and (k % max(1, len(lines) // 6) == 0):
                     corr["samples"].append({"case": c[:300], "impl": a[:300], "model": b[:300], "config": cname})
@@ -279,6 +282,10 @@ def main():
                     known_hits.append((c, kfhit[0]))
                     continue
                 violations.append({"kind": "oracle: " + msg, "config": cname, "case": c, "found_input": True})
+    # cross-configuration oracle on the implementation's own outputs (C19)
+    if "cross" in P and len(outs_by_config) > 1:
+        for (c, msg) in P["cross"](lines, outs_by_config):
+            violations.append({"kind": "cross-configuration: " + msg, "case": c, "found_input": True})
     # property-specific extra phase (compile probes, threads, downstream crate …)
     if "extra" in P and not replay:
         extra = P["extra"](tier, seed, log)
